@@ -1,5 +1,6 @@
 import os
 from vp.api import Q, Mutant
+from vp.seqir import seqir
 TITLE = "Schedulers never lose or duplicate a ready task (10 of the 11 modules; ltq not within reach)"
 MODS = ["ap", "gd", "ip", "rnd", "spq", "ll", "llp", "lhq", "lfq", "ltq", "pbq"]
 UNIT = {m: "parsec/mca/sched/%s/sched_%s_module.c" % (m, m) for m in MODS}
@@ -221,6 +222,28 @@ def queries(ctx):
                       "bounds": {"VPs": 2, "streams": "2+1", "tasks": "<=4"},
                       "functions": ["__parsec_schedule_vp", "__parsec_schedule", "__parsec_schedule_flush_private"]},
                 timeout=1200, tiers=both))
+    # --- Engine S: concurrent entry points of the LIFO based modules (llp: lifo_chain_sorted / lifo_merge_ring vs pop/steal and a
+    #     second writer; ll: lifo chain vs pop/steal).  General C08 oracle in check(): one place per task, NULL terminated, drain.
+    CONC = {1: "fastpath_cas_fails_eq", 2: "fastpath_cas_fails_low", 3: "merge2_vs_steal2", 4: "single_writer_vs_steal", 5: "two_writers", 6: "distance_ring_vs_pops"}
+    def conc(mod, sc, R, tiers):
+        qs.append(Q("%s_conc_%s_r%d" % (mod, CONC[sc], R), [], defs=["SCEN=%d" % sc, "MOD_" + mod, "NES=2"], engine="S",
+                    units=[UNIT[mod], "parsec/class/lifo.h", "parsec/class/list_item.h"], patches=[ES_PATCH],
+                    gen=lambda ctx, q, qdir, overlays: (_ov_inc(ctx, q, qdir, overlays), seqir(["hs_conc.c"], threads=["thread0", "thread1"], rounds=R, drain=True)(ctx, q, qdir, overlays))[-1],
+                    unwind=8, timeout=2400, slow=True, tiers=tiers,
+                    info={"symbolic": ["schedule: every SC interleaving with <= %d scheduling slots per thread, completed by a deterministic drain" % R],
+                          "enumerated": ["scenario %d (%s): initial queue contents, the two threads' calls and the priorities are fixed" % (sc, CONC[sc])],
+                          "stubs": ["scheduler objects initialised field by field as the constructors do (no class system)"],
+                          "bounds": {"rounds": R, "threads": 2},
+                          "functions": ["sched_%s_schedule" % mod, "sched_%s_select" % mod] + (["lifo_chain_sorted", "lifo_merge_ring"] if mod == "llp" else ["parsec_lifo_chain"]) + ["parsec_lifo_pop"]}))
+    conc("llp", 1, 2, both)
+    conc("llp", 2, 2, th)
+    conc("llp", 1, 3, th)
+    conc("llp", 2, 3, th)
+    conc("llp", 3, 2, th)
+    conc("llp", 4, 2, th)
+    conc("llp", 5, 2, th)
+    conc("ll", 6, 2, th)
+    conc("ll", 5, 2, th)
     return qs
 
 
